@@ -507,4 +507,68 @@ theorem activation_prefix (vals : List Validator) (cur fin limit : Nat) (hfin : 
         simp [h1, h3]
       · simp [h1]
 
+/-! ### what the registry update leaves alone -/
+
+theorem map_set_same {β : Type} (f : Validator → β) (w : List Validator) (i : Nat) (v v' : Validator)
+    (h : w[i]? = some v) (hf : f v' = f v) : (w.set i v').map f = w.map f := by
+  apply List.ext_getElem?
+  intro j
+  simp only [List.getElem?_map, List.getElem?_set]
+  by_cases hij : i = j
+  · subst hij
+    obtain ⟨hi, hget⟩ := List.getElem?_eq_some_iff.mp h
+    simp [hi, hf, hget]
+  · simp [hij]
+
+theorem ive_map_same {β : Type} (f : Validator → β) (cfg : Config) (cur : Nat) (w : List Validator) (i : Nat)
+    (hf : ∀ v a b, f { v with exit_epoch := a, withdrawable_epoch := b } = f v) :
+    (initiate_validator_exit_pure cfg cur w i).map f = w.map f := by
+  unfold initiate_validator_exit_pure
+  cases h : w[i]? with
+  | none => simp
+  | some v =>
+    simp only []
+    split
+    · rfl
+    · exact map_set_same f w i v _ h (hf v _ _)
+
+theorem foldl_preserves {α β : Type} (P : β → Prop) (g : β → α → β) (l : List α) (b : β)
+    (hb : P b) (hstep : ∀ b a, P b → P (g b a)) : P (l.foldl g b) := by
+  induction l generalizing b with
+  | nil => exact hb
+  | cons x xs ih => exact ih (g b x) (hstep b x hb)
+
+/-- the first loop of `process_registry_updates` changes eligibility, exit and withdrawable epochs only -/
+theorem registry_first_loop_map_same {β : Type} (f : Validator → β) (cfg : Config) (cur : Nat) (vals : List Validator)
+    (hf1 : ∀ v a b, f { v with exit_epoch := a, withdrawable_epoch := b } = f v)
+    (hf2 : ∀ v a, f { v with activation_eligibility_epoch := a } = f v) :
+    (registry_eligibility_and_ejections_pure cfg cur vals).map f = vals.map f := by
+  unfold registry_eligibility_and_ejections_pure
+  refine foldl_preserves (fun (w : List Validator) => w.map f = vals.map f) _ _ _ rfl ?_
+  · intro w i hw
+    cases h : w[i]? with
+    | none => simpa using hw
+    | some v =>
+      simp only []
+      have h1 : (if is_eligible_for_activation_queue cfg v = true then
+          w.set i { v with activation_eligibility_epoch := cur + 1 } else w).map f = vals.map f := by
+        split
+        · rw [map_set_same f w i v _ h (hf2 v _)]; exact hw
+        · exact hw
+      split
+      · rw [ive_map_same f cfg cur _ i hf1]; exact h1
+      · exact h1
+
+theorem registry_activations_map_same {β : Type} (f : Validator → β) (cfg : Config) (cur fin limit : Nat) (vals : List Validator)
+    (hf : ∀ v a, f { v with activation_epoch := a } = f v) :
+    (registry_activations_pure cfg cur fin limit vals).map f = vals.map f := by
+  unfold registry_activations_pure
+  refine foldl_preserves (fun (w : List Validator) => w.map f = vals.map f) _ _ _ rfl ?_
+  · intro w i hw
+    cases h : w[i]? with
+    | none => simpa using hw
+    | some v =>
+      simp only []
+      rw [map_set_same f w i v _ h (hf v _)]; exact hw
+
 end Zrnt.Proofs.Lemmas
